@@ -58,13 +58,19 @@ func c17Judge(sc *WF, tr []Ev) (fp, msg string) {
 						if e.In2Wrap {
 							return "C17:error-result-wrapped-twice", fmt.Sprintf("%s: exec returned an error Result; the post function received it wrapped a second time (IsError()=%v, Value() is a flyt.Result)", name, e.InIsErr)
 						}
-						if !e.InIsErr || !sameErr(e.In2Err, lastRes.RetResErr) {
+						if !e.InIsErr || e.In2Err == nil || !chainHas(e.In2Err, lastRes.RetResErr) {
 							return "C17:error-result-stripped", fmt.Sprintf("%s: exec returned an error Result carrying %q; post received IsError()=%v Error()=%v", name, lastRes.RetResErr, e.InIsErr, e.In2Err)
 						}
 					} else if e.In2 != nil {
-						r, isRes := e.In2.(flyt.Result)
-						if !isRes || !r.IsError() || !sameErr(r.Error(), lastRes.RetResErr) {
-							return "C17:error-result-any-post", fmt.Sprintf("%s: exec returned an error Result; Any-style post received %#v (want nil or the Result carrying that error)", name, e.In2)
+						// Any renderings of an error Result: nil (today), the Result itself, or the bare error
+						good := false
+						if r, isRes := e.In2.(flyt.Result); isRes {
+							good = r.IsError() && r.Error() != nil && chainHas(r.Error(), lastRes.RetResErr)
+						} else if er, isErr := e.In2.(error); isErr {
+							good = chainHas(er, lastRes.RetResErr)
+						}
+						if !good {
+							return "C17:error-result-any-post", fmt.Sprintf("%s: exec returned an error Result; Any-style post received %#v (want nil, the Result carrying that error, or the error)", name, e.In2)
 						}
 					}
 					continue
@@ -259,6 +265,9 @@ func checkC17Batch(t *testing.T, sc BatchSc) Verdict {
 	x, br, fail := runBatchCase(t, &sc, nil)
 	if fail != "" && !goroutinesRemain(fail) {
 		return bad("C17:bubble", "%s", fail)
+	}
+	if br.Rejected {
+		return ok(false, "prep-form-rejected")
 	}
 	if br.Panic != "" {
 		return bad("C17:panic", "%s", br.Panic)
